@@ -10,8 +10,9 @@ redirects are reported as errors rather than silently misrouted."
 Theorems over the model `Redir` (Model/Redir.lean) instantiated with the tables TRANSLATED from /repo on this run
 (Gen/Redir.lean): decoder tables of xonsh/procs/specs.py, the complete language of `_REDIR_REGEX`, the tokenizer's
 redirect spellings, the shape of the grammar rule.  The documented routing is `Redir.specRoute` (written from
-docs/tutorial.rst); `Redir.route` is the code as it is (`Quirks.current`) or with its seven deviations repaired
-(`Quirks.fixed`).  The lemmas that do not mention the tables are in Lemmas/Redir*.lean.
+docs/tutorial.rst); `Redir.route` with `Quirks.fixed` is the code as it is now — the seven deviations of the pinned
+snapshot are repaired in /repo (ce03276 55d432e c8fac0d 58fc858 e44af9d 6c98380 0a66bfd) — and with `Quirks.current` it is
+the snapshot before the repairs.  HEADLINE: `C07_route`.  The lemmas that do not mention the tables are in Lemmas/Redir*.lean.
 -/
 import XonshVerif.Model.Redir
 import XonshVerif.Lemmas.RedirStage
@@ -215,7 +216,7 @@ def OutsideStage (cfg : Cfg) (cap : Cap) (isLast : Bool) (st : Stage) : Prop :=
   (isLast = true → cap = .uncaptured → isAlias st.kind = false) ∧ -- `$[…]` does not end in a callable alias
   (isLast = true → cap = .object → procThreadable cfg st.kind = true)   -- `!(…)` ends in a threadable command
 
-/-- THE ROUTING THEOREM FOR TODAY'S CODE (partial): the model with all seven deviations present satisfies the documented
+/-- THE ROUTING THEOREM FOR THE PINNED SNAPSHOT (partial): the model with all seven deviations present satisfies the documented
 routing for every pipeline all of whose stages are outside the deviation regions.  The unrestricted statement is false:
 one counterexample per deviation below. -/
 theorem C07_route_partial (ts : Nat → TState) (cfg : Cfg) (cap : Cap) (stages : List Stage)
@@ -269,7 +270,9 @@ example : ∀ k st, [Stage.mk xp [("e>o".toList, .none)], Stage.mk ta [(">>".toL
   | 0, h => cases h; exact ⟨by decide +kernel, by decide, by decide, by decide⟩
   | 1, h => cases h; exact ⟨by decide +kernel, by decide, by decide, by decide⟩
 
-/-! ## the seven deviations of today's code: counterexamples (each is replayed on the real code by the check) -/
+/-! ## the seven deviations of the PINNED SNAPSHOT: what it did on each witness (`Quirks.current`), against the documentation.
+All seven are repaired in /repo; the check replays each witness on the real code as a FIXED witness (it must now be routed
+as documented, i.e. as `Quirks.fixed` says: last example of this section) -/
 
 def only (k : Nat) : Quirks :=
   ⟨k == 0, k == 1, k == 2, k == 3, k == 4, k == 5, k == 6⟩
